@@ -72,6 +72,8 @@ def generate(rng, tier):
     for i in range(n + len(corpus)):
         if i < len(corpus):
             base = corpus[i]
+        elif i % 9 == 4:
+            base = sc.gen_shared_delay(rng)
         elif i % 3 == 2:
             base = _strip_topush(sc.gen_ring(rng, sufficient=True))
         else:
